@@ -1532,7 +1532,11 @@ func (s *Store) processLTXStreamFrame(ctx context.Context, frame *LTXStreamFrame
 
 	// Skip frame if it already occurred on this node. This can happen if the
 	// replica node created the transaction and forwarded it to the primary.
-	if hdr.NodeID == s.ID() {
+	//
+	// If the local position is still behind the frame then the transaction was
+	// applied on the primary but never committed locally (e.g. the response to
+	// the forwarded commit was lost) so it must be applied like any other frame.
+	if hdr.NodeID == s.ID() && db.Pos().TXID >= hdr.MaxTXID {
 		dec := ltx.NewDecoder(src)
 		if err := dec.Verify(); err != nil {
 			return fmt.Errorf("verify duplicate ltx file: %w", err)
